@@ -2337,15 +2337,20 @@ impl KotoVm {
 
     // Called from run_equal / run_not_equal to compare the contents of maps
     fn compare_value_maps(&mut self, map_a: KMap, map_b: KMap) -> Result<bool> {
-        if map_a.len() != map_b.len() {
+        // Both maps stay borrowed for the whole comparison (as is the case when lists are compared),
+        // so that the sizes and entries that get compared belong to a single state of each map.
+        let data_a = map_a.data();
+        let data_b = map_b.data();
+
+        if data_a.len() != data_b.len() {
             return Ok(false);
         }
 
-        for (key_a, value_a) in map_a.data().iter() {
-            let Some(value_b) = map_b.get(key_a) else {
+        for (key_a, value_a) in data_a.iter() {
+            let Some(value_b) = data_b.get(key_a) else {
                 return Ok(false);
             };
-            match self.run_binary_op(BinaryOp::Equal, value_a.clone(), value_b)? {
+            match self.run_binary_op(BinaryOp::Equal, value_a.clone(), value_b.clone())? {
                 KValue::Bool(true) => {}
                 KValue::Bool(false) => return Ok(false),
                 other => {
